@@ -67,6 +67,10 @@ class IrEngineBase(Engine):
 
             IrEngineBase.corpus = streamsim.build_corpus(min(16, os.cpu_count() or 1))
             _, IrEngineBase.full_ctx = streamsim._contexts()
+            import gc
+
+            gc.collect()
+            gc.freeze()  # 80 loaded dialects: keep them out of later collections (see streamsim)
 
     # -- one run ------------------------------------------------------------
     def run(self, ch: Chooser, trace: bool) -> RunResult:
